@@ -59,6 +59,10 @@ EXTRA = {
         "cells are scalars (str / None / int / float / bool / datetime); unhashable cells (list, dict) are outside "
         "the input domain of every reader",
         "read_csv is exercised on io.StringIO (lines end in \\n only)",
+        "a lone surrogate in a cell cannot be sent to the model driver (UTF-8): such streams are judged by the oracle "
+        "only; tables of more than ~1100 rows likewise (the model comparison of long tables stops at 1025 rows)",
+        "stdout / stderr are replaced by ASCII-only strict text streams for part of the reads: a repair must not depend "
+        "on what the console can encode (table names in the generated inputs are ASCII)",
     ],
     "explanation": "Props/C13.lean: finish_closed (closed form of duplicate-name repair, short-row repair, column "
                    "parsing and report(): values as a function of layout + replacement values, fixer grown by exactly "
@@ -87,6 +91,10 @@ LEGAL_NATIVE = {
     "datetime": [datetime.datetime(2020, 1, 2), datetime.datetime(2020, 1, 2, 3, 4, 5, 6), "2020-01-02"],
     "num": [0, 1, -3, 1.5, float("nan"), float("inf"), True, None, 10 ** 20, "1.5"],
 }
+# text a console may not be able to encode: non-Latin-1, astral, a lone surrogate (json.loads can produce one), U+FEFF
+ODD_TEXT = {"onoff": ["да", "yes😀", "on\ud83d", "\ufefftrue"], "datetime": ["x😀", "中2020", "y\ud83d"],
+            "num": ["12\ud83d", "1😀", "ü1", "中", "\ufeff1", "𝔸"]}
+BLANK_TEXT = ["", " "]                          # an emptied cell is an illegal cell of any typed column
 ILLEGAL = {
     "onoff": ["maybe", "2", "yes", "on", "-", "nan", "1.0"],
     "datetime": ["yesterday", "2020-13-45", "x2020", "2020-02-30", "12:30x", "abc",
@@ -116,7 +124,9 @@ FOREIGN = {"onoff": None, "datetime": "n/a", "float": "x"}
 MODEL_KIND = {"default": "strict", "class": "strict", "strict": "strict", "lenient": "lenient",
               "lenient_class": "lenient", "custom": "custom", "custom_class": "custom",
               "attr_class": "lenient", "attr": "lenient", "prop_class": "lenient", "prop": "lenient",
-              "newrow_class": "lenient", "newrow": "lenient"}
+              "newrow_class": "lenient", "newrow": "lenient",
+              # an ORDINARY lenient fixer (no test flag): report() prints its summary to stdout / stderr
+              "plain_lenient": "lenient"}
 
 
 # --------------------------------------------------------------------------- fixers
@@ -167,6 +177,10 @@ def fixer_arg(kind):
     if kind == "foreign":
         f = ForeignCls()
         return f, lambda: f
+    if kind == "plain_lenient":
+        f = ParseFixer()
+        f.stop_on_errors = False
+        return f, lambda: f
     by_class = {"attr": AttrCls, "prop": PropCls, "newrow": NewRowCls}
     if kind in by_class:
         f = by_class[kind]()
@@ -193,7 +207,12 @@ def issue_text(issue):
     return str(getattr(issue, "issue", issue))
 
 
-def run_impl(rows=None, text=None, fixer_kind="default", tracker="raising", to="pdtable", grid=None):
+def ascii_stream():
+    """what a console limited to ASCII looks like to print(): encoding errors are raised, not replaced"""
+    return io.TextIOWrapper(io.BytesIO(), encoding="ascii", errors="strict", write_through=True)
+
+
+def run_impl(rows=None, text=None, fixer_kind="default", tracker="raising", to="pdtable", grid=None, ascii_stdout=False):
     """the real reader on native rows (parse_blocks) or on text (read_csv); per-block fixer snapshots.
     `grid`: hand THIS list-of-lists object to parse_blocks (no copy), as a caller holding a grid in memory does"""
     from pdtable.io.parsers.blocks import parse_blocks
@@ -202,9 +221,9 @@ def run_impl(rows=None, text=None, fixer_kind="default", tracker="raising", to="
     arg, getter = fixer_arg(fixer_kind)
     tr = bc.collecting_tracker() if tracker == "collecting" else None
     blocks, snaps, ending, err_text = [], [], "exhausted", None
-    sink = io.StringIO()
+    sink, sink2 = (ascii_stream(), ascii_stream()) if ascii_stdout else (io.StringIO(), io.StringIO())
     try:
-        with warnings.catch_warnings(), contextlib.redirect_stdout(sink), contextlib.redirect_stderr(sink):
+        with warnings.catch_warnings(), contextlib.redirect_stdout(sink), contextlib.redirect_stderr(sink2):
             warnings.simplefilter("ignore")
             if text is not None:
                 gen = read_csv(io.StringIO(text), to=to, issue_tracker=tr, fixer=arg)
@@ -245,9 +264,10 @@ def run_impl(rows=None, text=None, fixer_kind="default", tracker="raising", to="
 
 # --------------------------------------------------------------------------- generator
 
-def gen_table(rng, idx, native=False, allow_transposed=True):
-    n_col = rng.choice([1, 2, 2, 3, 3, 4, 5])
-    n_row = rng.choice([0, 1, 2, 2, 3, 4])           # 0: header only (name and unit rows, no values)
+def gen_table(rng, idx, native=False, allow_transposed=True, n_row=None):
+    n_col = rng.choice([1, 2, 2, 3, 3, 4, 5]) if n_row is None else rng.choice([2, 3])
+    if n_row is None:
+        n_row = rng.choice([0, 1, 2, 2, 3, 4])       # 0: header only (name and unit rows, no values)
     transposed = allow_transposed and rng.random() < 0.35
     kinds = [rng.choice(["text", "onoff", "datetime", "num", "num"]) for _ in range(n_col)]
     pool = list(NAMES)
@@ -284,7 +304,13 @@ def inject(rng, tab, native=False, p_defect=0.75):
                 v = rng.choice(ILLEGAL[k])
             d["illegal"][(i, j)] = v
         else:
-            d["illegal"][(i, j)] = rng.choice(ILLEGAL[k])
+            r = rng.random()
+            if r < 0.12:
+                d["illegal"][(i, j)] = rng.choice(ODD_TEXT[k])
+            elif r < 0.22 and j > 0 and not tab["transposed"]:
+                d["illegal"][(i, j)] = rng.choice(BLANK_TEXT)      # (a blank first cell would end the block)
+            else:
+                d["illegal"][(i, j)] = rng.choice(ILLEGAL[k])
     # a table without value rows can only have a name defect: aim there more often
     if n_col >= 2 and rng.random() < (0.8 if n_row == 0 else 0.45):
         inject_dups(rng, tab, d)
@@ -543,10 +569,9 @@ def check_lenient_table(t, base, tab, d, rep, fx, out, case):
     return True
 
 
-def reread_check(rng, out, case, rows, any_defect):
+def reread_check(seq, out, case, rows, any_defect):
     """a caller's in-memory grid: the read must not change it, and reading the SAME object again must give the
     same verdict, shape and counters as reading a fresh copy of the original grid"""
-    seq = rng.choice([("lenient", "default"), ("default", "default"), ("lenient", "lenient"), ("custom", "strict")])
     grid = [list(r) for r in rows]
     snapshot = grid_to_json(rows)
     for step, fk in enumerate(seq):
@@ -572,44 +597,108 @@ def reread_check(rng, out, case, rows, any_defect):
 
 # --------------------------------------------------------------------------- run
 
-def one_case(seed, idx, out, model_ok, ops, pend):
-    rng = make_rng(seed, f"C13:{idx}")
-    if True:
-        native = rng.random() < 0.35
+def encode_spec(sp):
+    import base64
+    import pickle
+    return base64.b64encode(pickle.dumps(sp, protocol=4)).decode("ascii")
+
+
+def decode_spec(txt):
+    import base64
+    import pickle
+    return pickle.loads(base64.b64decode(txt))
+
+
+def with_spec(judge, sp, out, *args):
+    """run a judge on a fully specified case; every failure it records carries the specification, so that it replays
+    exactly (independent of tier, seed and of how the generators evolve)"""
+    n0 = len(out.failures)
+    judge(sp, out, *args)
+    for f in out.failures[n0:]:
+        f["input"]["spec"] = encode_spec(sp)
+        f["input"]["stream"] = sp["stream"]
+
+
+SIZE_LADDER = [63, 64, 127, 128, 129, 255, 256, 257, 999, 1000, 1001, 1023, 1024, 1025, 2047, 2048, 2049,
+               4095, 4096, 4097, 8191, 8192, 8193]
+
+
+def has_surrogate(rows):
+    return any(isinstance(c, str) and any(0xD800 <= ord(ch) <= 0xDFFF for ch in c) for r in rows for c in r)
+
+
+def gen_stream(seed, idx, n_long=None):
+    """everything random about one stream case, drawn here; the judge below uses no randomness"""
+    rng = make_rng(seed, f"C13:{idx}" if n_long is None else f"C13L:{idx}:{n_long}")
+    native = rng.random() < 0.35
+    if n_long is None:
         n_tab = rng.choice([1, 1, 2, 2, 3])
         tabs = [gen_table(rng, k, native) for k in range(n_tab)]
-        defs = [inject(rng, t, native) for t in tabs]
-        fk = FIXER_KINDS[idx % len(FIXER_KINDS)] if idx < 4 * len(FIXER_KINDS) else rng.choice(FIXER_KINDS)
-        tracker = rng.choice(["raising", "collecting"])
-        use_text = (not native) and rng.random() < 0.5
-        rows, starts = [], []
-        clean_grids, bad_grids = [], []
-        # stream layout: tables separated by a blank row or abutting (the next `**` marker ends the block), and the
-        # stream ending with a blank row or right after the last table's last row (all four combinations)
-        abut = rng.random() < 0.5
-        trailing_blank = rng.random() < 0.5
-        for k, (t, d) in enumerate(zip(tabs, defs)):
-            starts.append(len(rows))
-            g = build_grid(t, d)
-            bad_grids.append(g)
-            clean_grids.append(build_grid(t))
-            rows.extend(g)
-            last = k == len(tabs) - 1
-            if (last and trailing_blank) or (not last and not (abut and rng.random() < 0.8)):
-                rows.append([])
-        text = None
-        if use_text:
-            text = to_text(rows)
-            if not trailing_blank and rng.random() < 0.5:
-                text = text[:-1]                       # the file ends without a newline after the last cell
-            rows = [l.rstrip("\n").split(";") for l in text.splitlines(True)]     # as csv.py splits them
+    else:
+        native = False
+        tabs = [gen_table(rng, 0, native, n_row=n_long)] + ([gen_table(rng, 1, native)] if rng.random() < 0.5 else [])
+        n_tab = len(tabs)
+    defs = [inject(rng, t, native) for t in tabs]
+    kinds = FIXER_KINDS + ["plain_lenient"]
+    fk = kinds[idx % len(kinds)] if (idx < 4 * len(kinds) and n_long is None) else rng.choice(kinds)
+    tracker = rng.choice(["raising", "collecting"])
+    use_text = (not native) and rng.random() < 0.5
+    rows, starts = [], []
+    clean_grids, bad_grids = [], []
+    # stream layout: tables separated by a blank row or abutting (the next `**` marker ends the block), and the
+    # stream ending with a blank row or right after the last table's last row (all four combinations)
+    abut = rng.random() < 0.5
+    trailing_blank = rng.random() < 0.5
+    for k, (t, d) in enumerate(zip(tabs, defs)):
+        starts.append(len(rows))
+        g = build_grid(t, d)
+        bad_grids.append(g)
+        clean_grids.append(build_grid(t))
+        rows.extend(g)
+        last = k == len(tabs) - 1
+        if (last and trailing_blank) or (not last and not (abut and rng.random() < 0.8)):
+            rows.append([])
+    text = None
+    if use_text:
+        text = to_text(rows)
+        if not trailing_blank and rng.random() < 0.5:
+            text = text[:-1]                       # the file ends without a newline after the last cell
+        rows = [l.rstrip("\n").split(";") for l in text.splitlines(True)]     # as csv.py splits them
+    return {"stream": "stream" if n_long is None else "long", "seed": seed, "index": idx, "n_long": n_long,
+            "native": native, "tabs": tabs, "defs": defs, "fk": fk, "tracker": tracker, "use_text": use_text,
+            "rows": rows, "text": text, "starts": starts, "clean_grids": clean_grids, "bad_grids": bad_grids,
+            "abut": abut, "trailing_blank": trailing_blank,
+            # repair must not depend on what stdout can encode: part of the reads run with an ASCII-only stdout/stderr
+            "ascii_stdout": rng.random() < 0.4,
+            "reread_seq": None if n_long is not None else
+            rng.choice([("lenient", "default"), ("default", "default"), ("lenient", "lenient"), ("custom", "strict")])}
+
+
+def one_case(seed, idx, out, model_ok, ops, pend, n_long=None):
+    with_spec(judge_stream, gen_stream(seed, idx, n_long), out, model_ok, ops, pend)
+
+
+def judge_stream(sp, out, model_ok, ops, pend):
+    seed, idx, native, tabs, defs, fk, tracker, use_text = (sp[k] for k in (
+        "seed", "index", "native", "tabs", "defs", "fk", "tracker", "use_text"))
+    rows, text, starts, clean_grids, bad_grids, abut, trailing_blank = (sp[k] for k in (
+        "rows", "text", "starts", "clean_grids", "bad_grids", "abut", "trailing_blank"))
+    n_tab = len(tabs)
+    big = sum(len(r) for r in rows) > 800
+    if True:
         case = {"seed": seed, "index": idx, "fixer": fk, "tracker": tracker, "api": "read_csv" if use_text else "parse_blocks",
-                "rows": grid_to_json(rows)}
+                "rows": grid_to_json(rows) if not big else {"n_rows": len(rows), "see": "spec"}}
+        if sp["n_long"] is not None:
+            case["n_long"] = sp["n_long"]
+            out.count("rows ladder:%d" % sp["n_long"])
+        if sp["ascii_stdout"]:
+            case["stdout"] = "ascii"
+            out.count("stdout: ascii-only")
         n_def = sum(n_defects(t, d) for t, d in zip(tabs, defs))
         out.evaluations += 1
         if n_def:
-            out.nontrivial.add(hash((repr(rows), fk, tracker, use_text)))
-        if len(out.samples) < 3 and n_def:
+            out.nontrivial.add(hash((repr(rows) if not big else repr((seed, idx, sp["n_long"])), fk, tracker, use_text)))
+        if len(out.samples) < 3 and n_def and not big:
             out.samples.append(case)
         out.count("fixer:" + fk)
         out.count("api:" + case["api"])
@@ -623,13 +712,15 @@ def one_case(seed, idx, out, model_ok, ops, pend):
             out.count("defects:dup", len(d["dups"]))
             out.count("defects:dup named like a replacement", sum(1 for n in d["dups"].values() if "_fixed_" in n))
             out.count("defects:short", len(d["short"]))
-            for (i, j) in effective_illegal(t, d):
+            for (i, j), v in effective_illegal(t, d).items():
                 out.count("illegal:" + t["kinds"][j])
+                if isinstance(v, str) and any(ord(ch) > 255 for ch in v):
+                    out.count("illegal: non-Latin-1 / astral / surrogate text")
 
         out.count("layout:" + ("abutting" if abut and n_tab > 1 else "separated") + "+" +
                   ("trailing blank" if trailing_blank else "ends at last table row"))
         impl = run_impl(rows=None if use_text else rows, text=text if use_text else None,
-                        fixer_kind=fk, tracker=tracker)
+                        fixer_kind=fk, tracker=tracker, ascii_stdout=sp["ascii_stdout"])
         mk = MODEL_KIND[fk]
         strict = mk == "strict"
         rep = CUSTOM if mk == "custom" else STOCK
@@ -722,13 +813,13 @@ def one_case(seed, idx, out, model_ok, ops, pend):
             out.fail("a lenient read reported an error for repairable defects", case,
                      {"issues": impl["issues"], "ending": impl["ending"]}, None, key="lenient_failed")
             return
-        if not use_text:
+        if not use_text and sp["reread_seq"] is not None:
             out.count("reread: same grid object read twice")
-            if not reread_check(rng, out, case, rows, any(has_def)):
+            if not reread_check(sp["reread_seq"], out, case, rows, any(has_def)):
                 return
 
-        # ---- model
-        if model_ok:
+        # ---- model (a lone surrogate cannot travel to the driver as UTF-8; long tables only up to ~1000 rows)
+        if model_ok and not has_surrogate(rows) and (sp["n_long"] is None or sp["n_long"] <= 1100):
             if use_text:
                 ops.append({"op": "read_csv_blocks", "text": text, "sep": ";", "to": "pdtable", "filter": None,
                             "tracker": tracker, "fixer": rc.FIXERS[mk], "ext": rc.ext_tables(rows)})
@@ -854,6 +945,9 @@ def workbook_case(seed, idx, out, model_ok, ops, pend, tmpdir):
             t = gen_table(rng, k, native=False)
             d = inject(rng, t, native=False)
             d["short"] = {}                            # a worksheet pads short rows with empty cells
+            for key, v in list(d["illegal"].items()):  # and cannot hold a lone surrogate or an empty string
+                if isinstance(v, str) and (not v.strip() or has_surrogate([[v]])):
+                    d["illegal"][key] = rng.choice(ILLEGAL[t["kinds"][key[1]]])
             k += 1
             plan.append((sname, len(rows), t, d))
             rows.extend(build_grid(t, d))
@@ -1014,7 +1108,7 @@ def direct_case(seed, idx, out, model_ok, ops, pend):
                     out.fail("a default call on a defect-free table differs from the stream read of the same table", case,
                              got, want, key="direct:clean_differs")
                     return
-        if model_ok:
+        if model_ok and not has_surrogate(grid):
             ops.append(rc.model_op("make_table", grid, "strict"))
             pend.append(("direct", case, impl, None))
 
@@ -1089,7 +1183,7 @@ def foreign_case(seed, idx, out):
 def run(tier, seed, model_ok, translator, search=False):
     out = Outcome()
     out.rule = ("streams of 1-3 well-formed tables (both orientations; text/onoff/datetime/numeric columns; text or "
-                "native cells) x injected defect subsets (illegal cells, duplicate names, short rows) x 13 fixer "
+                "native cells) x injected defect subsets (illegal cells, duplicate names, short rows) x 14 fixer "
                 "configurations x {parse_blocks, read_csv} x {raising, collecting} tracker; each stream compared with "
                 "the Lean model (stream level + every table block alone) and judged by the statement itself. "
                 "Non-trivial: at least one defect injected; distinct by stream content + configuration. Case i is "
@@ -1099,6 +1193,12 @@ def run(tier, seed, model_ok, translator, search=False):
     ops, pend = [], []
     for idx in range(n_streams):
         one_case(seed, idx, out, model_ok, ops, pend)
+    # defect injection into LONG tables: a ladder of row counts (always one above each of 1024, 4096, 8192)
+    lrng = make_rng(seed, "C13:ladder")
+    ladder = SIZE_LADDER + [20011] if thorough else sorted(set(lrng.sample(SIZE_LADDER, 4) + [129, 1025, 4097, 8193]))
+    for n in ladder:
+        for rep_i in range(3 if thorough else 2):
+            one_case(seed, rep_i, out, model_ok, ops, pend, n_long=n)
     for idx in range(600 if thorough else 120):
         direct_case(seed, idx, out, model_ok, ops, pend)
     for idx in range(300 if thorough else 60):
@@ -1211,11 +1311,14 @@ def join_message_lines(lines):
 
 def replay(rep):
     inp = rep.get("input") or {}
-    if "rows" not in inp or "index" not in inp:
+    if "spec" not in inp and ("rows" not in inp or "index" not in inp):
         return False, "replay file has no input (no-failing-input-found): " + str(rep.get("broken"))[:300]
     seed = int(inp.get("seed", rep.get("seed", 0)))
     o = Outcome()
-    if inp.get("stream") == "direct":
+    if "spec" in inp:
+        sp = decode_spec(inp["spec"])
+        {"stream": judge_stream, "long": judge_stream}[sp["stream"]](sp, o, False, [], [])
+    elif inp.get("stream") == "direct":
         direct_case(seed, int(inp["index"]), o, False, [], [])
     elif inp.get("stream") == "workbook":
         tmpdir = tempfile.mkdtemp(prefix="c13-")
